@@ -709,6 +709,7 @@ class TermCanvas(Canvas):
         elif not dc and char == b"\t":  # char tab
             self.tab()
         elif not dc and char == b"\b":  # backspace BS
+            self.is_rotten_cursor = False
             if x > 0:
                 self.set_term_cursor(x - 1, y)
         elif not dc and char == b"\a" and self.parsestate != 2:  # BEL
@@ -790,6 +791,7 @@ class TermCanvas(Canvas):
         self.set_term_cursor(x, y)
 
     def carriage_return(self) -> None:
+        self.is_rotten_cursor = False
         self.set_term_cursor(0, self.term_cursor[1])
 
     def newline(self) -> None:
@@ -815,6 +817,9 @@ class TermCanvas(Canvas):
         """
         if relative:
             relative_y = relative_x = True
+
+        # explicit cursor addressing cancels a pending wrap
+        self.is_rotten_cursor = False
 
         if relative_x:
             x += self.term_cursor[0]
@@ -893,6 +898,7 @@ class TermCanvas(Canvas):
             return
 
         x, y = self.saved_cursor
+        self.is_rotten_cursor = False
         self.set_term_cursor(x, y)
 
         if with_attrs and self.saved_attrs is not None:
@@ -1289,6 +1295,7 @@ class TermCanvas(Canvas):
                 self.modes.reverse_video = flag
             elif mode == 6:
                 self.modes.constrain_scrolling = flag
+                self.is_rotten_cursor = False
                 self.set_term_cursor(0, 0)
             elif mode == 7:
                 self.modes.autowrap = flag
@@ -1330,6 +1337,7 @@ class TermCanvas(Canvas):
             self.scrollregion_start = self.constrain_coords(0, top - 1, ignore_scrolling=True)[1]
             self.scrollregion_end = self.constrain_coords(0, bottom - 1, ignore_scrolling=True)[1]
 
+            self.is_rotten_cursor = False
             self.set_term_cursor(0, 0)
 
     def csi_clear_tabstop(self, mode: Literal[0, 3] = 0):
